@@ -52,6 +52,25 @@ func init() {
 		}
 		return m.callFn(f, nil, nil)
 	})
+	// The reflection client of a backend connection: (*serverReflectionClient).ServerReflectionInfo
+	// would open a stream on grpc-go's client transport; the harness supplies the conversation
+	// (vfReflClientFor). Natively the harness dials a real in-process backend instead.
+	reg("(*google.golang.org/grpc/reflection/grpc_reflection_v1alpha.serverReflectionClient).ServerReflectionInfo", func(m *Machine, fn *ssa.Function, args []Value) Value {
+		f := m.Prog.Func("vfReflClientFor")
+		if f == nil {
+			m.unsupported("vfReflClientFor not defined by the harness")
+		}
+		st := (*args[0].(*Value)).(Struct)
+		return Tuple{m.callFn(f, []Value{st[0]}, nil), Iface{}}
+	})
+	// vfBackendConn(id): under the engine a connection is just an identity
+	harnessAPI["vfBackendConn"] = func(m *Machine, args []Value) Value {
+		f := m.Prog.Func("vfBackendConnFake")
+		if f == nil {
+			m.unsupported("vfBackendConnFake not defined by the harness")
+		}
+		return m.callFn(f, args, nil)
+	}
 	// larking.newResolver registers the real google.api descriptor files (protobuf-go globals): skipped.
 	reg("larking.io/larking.newResolver", func(m *Machine, fn *ssa.Function, args []Value) Value {
 		rt := fn.Signature.Results().At(0).Type()
